@@ -226,13 +226,13 @@ CLAIMED = {
         "a change of a synonym table, of a reader's look-ups or of a writer's keys re-opens these obligations); for every well-formed schema a "
         "dictionary giving each present field under its primary key is accepted and every field reads back exactly what was written "
         "(key-level round trip, generic); every quantity string and every equation string a writer produces reads back to "
-        "the same value / unit / stoichiometry (C18, C19). Object level: units systems, species, reactions, whole networks, grid spaces, graph spaces (nodes and edges with conditional units) systems (network, space told by its type, state array, chemostat map, environment check) and scripts (system, requested times, time step, effective t_max, interval, policy, seed, mode) are modelled in full (Model/ObjDict.v: "
+        "the same value / unit / stoichiometry (C18, C19). Object level: units systems, species, reactions, whole networks, grid spaces, graph spaces (nodes and edges with conditional units) systems (network, space told by its type, state array, chemostat map, environment check) scripts (system, requested times, time step, effective t_max, interval, policy, seed, mode) and trajectories (the dictionary with the data in line: script, own system, data, times, engine description and option, coarse-graining map) are modelled in full (Model/ObjDict.v: "
         "the *_to_dict writers with format_unitvar_for_save and Reaction.to_string, the *_from_dict readers with process_unitvar_input, "
         "retrive_units_system_from_dict, the equation parser and RDNetwork's validation) with round-trip theorems (same labels, flags, "
         "environments and units systems; every coefficient, density and rate constant bit-identical in value and equivalent in unit; every "
         "stoichiometric coefficient and both orders; the rebuilt network valid again), and the modelled writers and readers are compared "
         "dictionary for dictionary with the code's (written form, alias variants at both levels, omitted defaults, inherit / default "
-        "units). Rejected dictionaries (a map of the wrong length, a zero size) are rejected by the modelled reader too. PARTIAL AS A THEOREM for trajectories (a script, a system, times and sampled data) and for file references / multi-file layouts / drawn seeds: that the objects rebuilt by their readers carry the original's physical content is established by the "
+        "units). Rejected dictionaries (a map of the wrong length, a zero size) are rejected by the modelled reader too. Outside the object-level model (decided by the correspondence below only): references to other files and multi-file layouts, external array files (.npy, text), seeds drawn when none is given, the list form of an equation, bare numbers for quantities: that the objects rebuilt by their readers carry the original's physical content is established by the "
         "correspondence: random networks, spaces (grid; graph with per-node and per-edge units), systems, scripts and Euler trajectories "
         "with independent units at every level go through to_dict -> from_dict, JSON text, save/load in a scratch directory, to_dict twice "
         "(stability), up to 6 of the alias substitution sites per object (~5000 sites per quick run), a multi-file system layout "
